@@ -1258,7 +1258,16 @@ func (s *Sim) waitAndComplete(c *Call) error {
 	s.env.add(Event{Kind: EvDoneInvoke, Conn: c.Res.Conn, Call: c.ID, Note: outcomeNames[c.Outcome]})
 	note := ""
 	if c.done != nil {
-		note = s.guard(func() { c.done(balancer.DoneInfo{Err: err}) })
+		// the fields gRPC fills in besides the error vary too: none of them is part
+		// of any statement (a client-side deadline counts whatever was received)
+		di := balancer.DoneInfo{Err: err, BytesSent: c.ID%2 == 0, BytesReceived: c.ID%3 == 0}
+		if c.ID%4 == 1 {
+			di.Trailer = metadata.MD{"x-trailer": {"1"}}
+		}
+		if c.ID%5 == 2 {
+			di.ServerLoad = "load-report"
+		}
+		note = s.guard(func() { c.done(di) })
 	}
 	c.Completed = true
 	c.InFlight = false
@@ -1357,6 +1366,44 @@ func (s *Sim) heal() {
 		}
 		if s.stop {
 			return
+		}
+		// Keys the burst certainly left unbound (a successful UNBIND completion began
+		// after every BIND completion naming the key had returned): bind each again
+		// and call it - with the full model, which holds them as unbound too. A
+		// binding that survived its UNBIND shows here.
+		if c := s.plan.Cfg; int(c.Locator) < nGoodLocators && !c.NilCfg {
+			ku := s.model.KnownUnbound()
+			if len(ku) > 2 {
+				ku = ku[:2]
+			}
+			for _, k := range ku {
+				if s.stop {
+					return
+				}
+				b := s.probeCall(len(s.plan.Ops)+1+len(s.plan.Suffix), MBind, nil)
+				if s.stop || b.Res.Kind != ResPlaced || !b.InFlight {
+					break
+				}
+				s.finishCall(len(s.plan.Ops)+1+len(s.plan.Suffix), b, OutOK, []string{k})
+				s.k.Quiesce()
+				s.afterOp()
+				if s.stop {
+					return
+				}
+				q := s.probeCall(len(s.plan.Ops)+1+len(s.plan.Suffix), MBound, []string{k})
+				s.res.Count("probe:concurrent_rebind_of_unbound_key", 1)
+				if s.stop {
+					return
+				}
+				if q.InFlight {
+					s.finishCall(len(s.plan.Ops)+1+len(s.plan.Suffix), q, OutAppErr, nil)
+					s.k.Quiesce()
+					s.afterOp()
+				}
+			}
+			if s.stop {
+				return
+			}
 		}
 		s.res.Count("post_burst_suffix_done", 1)
 		i = len(s.plan.Ops) + 1 + len(s.plan.Suffix)
